@@ -6,6 +6,7 @@ import (
 	"context"
 	"crypto/tls"
 	"crypto/x509"
+	"encoding/pem"
 	"fmt"
 	"os"
 	"path/filepath"
@@ -86,6 +87,11 @@ func main() {
 			// files that do not end in a newline (the PEM END line is the last byte), three files
 			"three-files-no-trailing-newline": {write("b4a.pem", bytes.TrimRight(ca3.PEM, "\n")), write("b4b.pem", bytes.TrimRight(ca1.PEM, "\n")), write("b4c.pem", bytes.TrimRight(ca2.PEM, "\n"))},
 		}
+		// a bundle as found in the wild: explanatory text between the blocks and PEM blocks that are not
+		// certificates (a CRL, EC parameters) before and between the CA certificates
+		crl := pem.EncodeToMemory(&pem.Block{Type: "X509 CRL", Bytes: []byte{0x30, 0x03, 0x02, 0x01, 0x01}})
+		ecp := pem.EncodeToMemory(&pem.Block{Type: "EC PARAMETERS", Bytes: []byte{0x06, 0x08, 0x2a, 0x86, 0x48, 0xce, 0x3d, 0x03, 0x01, 0x07}})
+		bundles["one-file-mixed-blocks"] = []string{write("b5.pem", []byte("# CA bundle of the signing service\n# Subject: CN=verif CA 3"), ca3.PEM, crl, []byte("Subject: CN=verif CA 1\nIssuer: self"), ca1.PEM, ecp, crl, ca2.PEM, []byte("# end"))}
 		client := ca1.Issue(caserver.Leaf{CN: "ra-client", Client: true})
 		clientCert, clientKey := caserver.WritePEM(dir, "client", client)
 		ips := []string{"127.0.0.2", "127.0.0.3", "127.0.0.4"}
@@ -96,7 +102,7 @@ func main() {
 				continue
 			}
 			rng := c.Rand
-			bname := []string{"one-file-one-ca", "one-file-three-cas", "two-files", "three-files-no-trailing-newline"}[rng.Intn(4)]
+			bname := []string{"one-file-one-ca", "one-file-three-cas", "two-files", "three-files-no-trailing-newline", "one-file-mixed-blocks"}[rng.Intn(5)]
 			nEp := 1 + rng.Intn(3)
 			perm := rng.Perm(3)
 			var list []string
@@ -209,6 +215,17 @@ func judge(r *ev.Run, c *ev.Case, rec caseRec, bundle []string, clientCert, clie
 			conf.MinVersion, conf.MaxVersion = tls.VersionTLS13, tls.VersionTLS13
 		case "tls10-11-only":
 			conf.MinVersion, conf.MaxVersion = tls.VersionTLS10, tls.VersionTLS11
+			// every suite Go implements for these protocol versions, named explicitly (gRPC's server
+			// credentials would otherwise strip the CBC suites and such a server could not talk to anybody)
+			conf.CipherSuites = nil
+			for _, cs := range append(tls.CipherSuites(), tls.InsecureCipherSuites()...) {
+				for _, v := range cs.SupportedVersions {
+					if v == tls.VersionTLS10 {
+						conf.CipherSuites = append(conf.CipherSuites, cs.ID)
+						break
+					}
+				}
+			}
 		}
 		pool := x509.NewCertPool()
 		pool.AddCert(ca1.Cert)
